@@ -7,6 +7,7 @@ from dask.utils import derived_from
 from pandas.core.window import Rolling as pd_Rolling
 
 from dask_expr._collection import new_collection
+from dask_expr._util import _convert_to_list
 from dask_expr._expr import (
     Blockwise,
     Expr,
@@ -89,17 +90,23 @@ class RollingReduction(Expr):
             by = self.groupby_kwargs.get("by", []) if self.groupby_kwargs else []
             by_columns = by if not isinstance(by, Expr) else []
             columns = determine_column_projection(self, parent, dependents, by_columns)
+            columns = _convert_to_list(columns)
             columns = [col for col in self.frame.columns if col in columns]
             if columns == self.frame.columns:
                 return
-            if self.groupby_kwargs is not None:
-                return type(parent)(
-                    type(self)(self.frame[columns], *self.operands[1:]),
-                    *parent.operands[1:],
-                )
-            if len(columns) == 1:
-                columns = columns[0]
-            return type(self)(self.frame[columns], *self.operands[1:])
+            if (
+                self.groupby_kwargs is None
+                and not isinstance(parent.operand("columns"), list)
+                and len(columns) == 1
+            ):
+                # a single column was asked for as a series
+                return type(self)(self.frame[columns[0]], *self.operands[1:])
+            # A list selection is applied again: it decides the order of the
+            # columns and keeps a one-column result a frame
+            return type(parent)(
+                type(self)(self.frame[columns], *self.operands[1:]),
+                *parent.operands[1:],
+            )
 
     @property
     def _is_blockwise_op(self):
